@@ -50,3 +50,6 @@ Qed.
 Definition optioncmd_tree (o : optioncmd) : tree := TL [TI (oc_cmd o); TI (oc_option o); TB (oc_arg o)].
 Definition optioncmd_of_tree (t : tree) : optioncmd :=
   {| oc_cmd := t_int (t_nth 0 t); oc_option := t_int (t_nth 1 t); oc_arg := t_bytes (t_nth 2 t) |}.
+
+Lemma optioncmd_of_tree_tree o : optioncmd_of_tree (optioncmd_tree o) = o.
+Proof. destruct o; reflexivity. Qed.
